@@ -2,6 +2,7 @@
 C10 — The five mode stream objects equal NIST SP 800-38A; decryptors invert encryptors.
 -/
 import Wencry.Generated.Consts
+import Wencry.Proofs.CtrPosition
 import Wencry.Proofs.ModesCorrect
 import Wencry.Proofs.AesCorrect
 namespace Wencry.Props.C10
@@ -69,5 +70,17 @@ theorem factory_knows_the_compiled_modes :
     ((List.range 256).all fun t => Gen.cipherKnownEnc.getD t false == (factoryKind true t).isSome) = true ∧
     ((List.range 256).all fun t => Gen.cipherKnownDec.getD t false == (factoryKind false t).isSome) = true := by
   decide +kernel
+
+/-- the position law of CTR: block j of a stream started at `iv` is block 0 of a stream started at `iv + j` (mod 2^128) fed the same input
+    block, and after n blocks the object is the one a fresh factory creates at `iv + n`. The harness suite `ctrlong` uses this as its oracle for
+    streams of 2^27 blocks, where no reference implementation is asked. -/
+theorem ctr_position_law (isenc : Bool) (key iv : Block) (s s' : Stream) (hs : create isenc 2 key iv = some s) (bs : List Block) (j : Nat)
+    (hj : j < bs.length) (hs' : create isenc 2 key (Proofs.CtrPosition.addCtr iv j) = some s') :
+    (s.run bs).2[j]? = (s'.run [bs[j]'hj]).2[0]? :=
+  Proofs.CtrPosition.ctr_position_law isenc key iv s s' hs bs j hj hs'
+
+theorem ctr_object_after_n_blocks (isenc : Bool) (key iv : Block) (s : Stream) (hs : create isenc 2 key iv = some s) (bs : List Block) :
+    create isenc 2 key (Proofs.CtrPosition.addCtr iv bs.length) = some (s.run bs).1 :=
+  Proofs.CtrPosition.ctr_state_after isenc key iv s hs bs
 
 end Wencry.Props.C10
